@@ -13,12 +13,13 @@ structure CsvPending where
   failAt : Int
   sched : List Nat
   eofWD : Bool := false
+  fwd : Bool := false
   deriving Inhabited
 
 structure CState where
   raw : Option CsvPending := none
   po : List (Bytes × Option Int × Option UInt64 × Option Bool) := []
-  read : Option (CsvCfg × Bytes × Int × List Nat × Bool) := none
+  read : Option (CsvCfg × Bytes × Int × List Nat × Bool × Bool) := none
   deriving Inhabited
 
 instance : Inhabited CsvCfg := ⟨{}⟩
@@ -68,9 +69,10 @@ def csvLine (s : CState) (toks : Array String) : CState × List Msg :=
         let doc ← bytes
         let eofWD ← bool01
         let failAt ← int
+        let fwd ← bool01
         let k ← nat
         let sched ← many k nat
-        return ({ delim := UInt8.ofNat d, doc := doc, failAt := failAt, sched := sched, eofWD := eofWD } : CsvPending)) toks 1 with
+        return ({ delim := UInt8.ofNat d, doc := doc, failAt := failAt, sched := sched, eofWD := eofWD, fwd := fwd } : CsvPending)) toks 1 with
     | .ok p => ({ s with raw := some p }, [])
     | .error e => failL "csvraw" e
   | some "CR" =>
@@ -89,7 +91,7 @@ def csvLine (s : CState) (toks : Array String) : CState × List Msg :=
       | .error e => failL "csvraw" e
       | .ok (rows, e) =>
         let fa : Option Nat := if p.failAt < 0 then none else some p.failAt.toNat
-        let mirror := Csv.readAll p.doc p.sched p.delim 1024 fa p.eofWD
+        let mirror := Csv.readAll p.doc p.sched p.delim 1024 fa p.eofWD p.fwd
         let mirrorOk : Bool × String := match mirror with
           | .panic w => (false, s!"model panics: {w}")
           | .ok (mrows, merr) =>
@@ -136,24 +138,25 @@ def csvLine (s : CState) (toks : Array String) : CState × List Msg :=
         let doc ← bytes
         let eofWD ← bool01
         let failAt ← int
+        let fwd ← bool01
         let k ← nat
         let sched ← many k nat
         let cfg : CsvCfg := { delim := UInt8.ofNat d, emptyNull := emptyNull, ignoreEmpty := ignoreEmpty, rename := rename,
                               «alias» := alias, headers := headers, types := types, enums := enums }
-        return (cfg, doc, failAt, sched, eofWD)) toks 1 with
+        return (cfg, doc, failAt, sched, eofWD, fwd)) toks 1 with
     | .ok r => ({ s with read := some r }, [])
     | .error e => failL "csvread" e
   | some "R" =>
     match s.read with
     | none => failL "csvread" "R without CV"
-    | some (cfg, doc, failAt, sched, eofWD) =>
+    | some (cfg, doc, failAt, sched, eofWD, fwd) =>
       let oracle := s.oracle
       let s := { s with read := none, po := [] }
       match runP (do let _ ← int; parseObs) toks 1 with
       | .error e => (s, [{ cls := "SPEC-MISMATCH", op := "csvread", kind := "accessors", detail := s!"observation not well-formed: {e}" }])
       | .ok obs =>
         -- C15: if the failing call is reached (decided by the reader model), the result must carry an error
-        let reached := failAt ≥ 0 && (match Csv.readAll doc sched cfg.delim 1024 (some failAt.toNat) eofWD with | .ok (_, some .fail) => true | _ => false)
+        let reached := failAt ≥ 0 && (match Csv.readAll doc sched cfg.delim 1024 (some failAt.toNat) eofWD fwd with | .ok (_, some .fail) => true | _ => false)
         if reached then
           match obs with
           | .panic m => (s, [{ cls := "SPEC-MISMATCH", op := "csvreadfault", kind := "panic", detail := s!"ReadCSV panicked: {bytesToString m}" }])
